@@ -160,6 +160,10 @@ def check_r121(fx, rep, require_stable=False):
                 and t[2][1][2] == "0"
             )
             derived = b.get("from_expansion")
+            # `partial_cmp` written as `Some(self.cmp(other))` is the canonical delegation (cmp is checked on its own)
+            if not ok and meth == "partial_cmp" and t[0] == "struct" and str(t[2]).endswith("Some") and t[3]:
+                inner = t[3][0][1]
+                ok = inner[0] == "call" and str(inner[1]).split("::")[-1] == "cmp" and len(inner[2]) == 2 and inner[2][0][0] == "local" and inner[2][0][2] == "self" and inner[2][1][0] == "local" and inner[2][1][2] == "other"
             rep.oblige(ok or derived, "R12.1", f"index-order:{meth}", F.loc(b["span"]), f"U256Wrapper::{meth} is `{T.short(t)}`: slot indices must be ordered by the inner 256-bit integer, receiver first", sample={"rule": "R12.1", "impl": meth, "term": T.short(t)})
         if not found:
             # derived Ord on a single-field tuple struct is equivalent
